@@ -77,6 +77,22 @@ Proof.
     split; [reflexivity|congruence].
 Qed.
 
+Lemma map_eval_pairs_relab pairs : Forall (fun p => P (fst p) /\ P (snd p)) pairs -> forall s kvs s', top_hidden s ->
+  map_eval_pairs ev s pairs = Ok (kvs, s') -> map_eval_pairs ev (relab L s) pairs = Ok (kvs, relab L s') /\ s_env s' = s_env s.
+Proof.
+  induction 1 as [|[k x] r [Hk Hx] Hr IH]; intros s vs s' Hh He; cbn [map_eval_pairs] in *.
+  - inversion He; auto.
+  - fold (map_eval_pairs ev) in *. cbn [fst snd] in Hk, Hx.
+    bstep He p1 E1. destruct p1 as [kv s1]. bstep He p2 E2. destruct p2 as [xv s2]. bstep He p3 E3. destruct p3 as [vr s3].
+    inversion He; subst.
+    destruct (Hev k Hk _ _ _ Hh E1) as [R1 V1]. rewrite R1. cbn [bind].
+    assert (Hh1 : top_hidden s1) by exact (top_hidden_env _ _ (eq_sym V1) Hh).
+    destruct (Hev x Hx _ _ _ Hh1 E2) as [R2 V2]. rewrite R2. cbn [bind].
+    assert (Hh2 : top_hidden s2) by exact (top_hidden_env _ _ (eq_sym V2) Hh1).
+    destruct (IH _ _ _ Hh2 E3) as [R3 V3]. rewrite R3. cbn [bind].
+    split; [reflexivity|congruence].
+Qed.
+
 Lemma cmp_chain_relab m rest : Forall (fun p => P (snd p)) rest -> forall left s v s', top_hidden s ->
   cmp_chain m ev left s rest = Ok (v, s') -> cmp_chain m ev left (relab L s) rest = Ok (v, relab L s') /\ s_env s' = s_env s.
 Proof.
@@ -139,6 +155,11 @@ Proof.
   - bstep He p1 E1. destruct p1 as [vs s1]. inversion He; subst.
     destruct (map_eval_relab (eval c fuel esc) (fun e => l2_expr e = true) IH' items (forallb_Forall _ _ Hw) _ _ _ Hh E1) as [R _].
     rewrite R. reflexivity.
+  - bstep He p1 E1. destruct p1 as [kvs s1]. inversion He; subst.
+    assert (Hpairs : Forall (fun p => l2_expr (fst p) = true /\ l2_expr (snd p) = true) pairs).
+    { apply forallb_Forall in Hw. eapply Forall_impl; [|exact Hw]. intros p Hp. apply andb_prop in Hp. exact Hp. }
+    destruct (map_eval_pairs_relab (eval c fuel esc) (fun e => l2_expr e = true) IH' pairs Hpairs _ _ _ Hh E1) as [R _].
+    rewrite R. reflexivity.
   - bstep He p1 E1. destruct p1 as [x s1]. destruct (IH' _ Hw _ _ _ Hh E1) as [R _]. rewrite R. cbn [bind].
     destruct x; try discriminate. inversion He; reflexivity.
   - bstep He p1 E1. destruct p1 as [x s1]. destruct (IH' _ Hw _ _ _ Hh E1) as [R _]. rewrite R. cbn [bind].
@@ -170,11 +191,11 @@ Proof.
     bstep He p1 E1. destruct p1 as [x s1]. bstep He p2 E2. destruct p2 as [k s2].
     destruct (IH' _ H1 _ _ _ Hh E1) as [R1 _]. rewrite R1. cbn [bind].
     destruct (IH' _ H2 _ _ _ (TH _ _ _ _ Hh E1) E2) as [R2 _]. rewrite R2. cbn [bind].
-    destruct (match x with VList l => match k with VInt z => idx_list l z | _ => None end | _ => None end).
+    destruct (get_item_opt x k).
     + inversion He; reflexivity.
     + bstep He w Ew. rewrite Ew. cbn [bind]. inversion He; reflexivity.
   - bstep He p1 E1. destruct p1 as [x s1]. destruct (IH' _ Hw _ _ _ Hh E1) as [R1 _]. rewrite R1. cbn [bind].
-    destruct (match x with VLoop i n => loop_attr i n a | _ => None end).
+    destruct (get_attr_opt x a).
     + inversion He; reflexivity.
     + bstep He w Ew. rewrite Ew. cbn [bind]. inversion He; reflexivity.
   - apply andb_prop in Hw as [H1 H2].
@@ -197,10 +218,10 @@ Proof.
     rewrite R2. cbn [bind].
     assert (Hh2 : top_hidden s2) by (eapply top_hidden_env; [symmetry; exact V2|exact Hh1]).
     destruct (lookup c s2 f) as [fv s3] eqn:El. rewrite (lookup_relab _ _ _ _ Hh2 El).
-    destruct fv as [[| | | | | | |mc cl| |g]|]; try discriminate.
+    destruct fv as [[| | | | | | | |mc cl| |g]|]; try discriminate.
     + apply call_macro_relab. exact He.
     + destruct (g =? N_range)%Z; [|discriminate].
-      destruct vs as [|[| | | |k| | | | |] [|? ?]]; try discriminate. destruct kvs; [|discriminate].
+      destruct vs as [|[| | | |k| | | | | |] [|? ?]]; try discriminate. destruct kvs; [|discriminate].
       inversion He; reflexivity.
 Qed.
 
